@@ -36,7 +36,9 @@ fn needs_spelling(r: usize) -> bool {
 
 /// Reader-spellable names: (spelling, name) where name is what symbol->string should give.
 fn spellable_names() -> Vec<(String, String)> {
-    let plain = ["a", "abc", "x1", "+", "-", "...", "->x", "a.b", "list", "q", "hello-world", "<=?", "!$%&*/:<=>?^_~", "A", "lambda2", "λ", "naïve", "日本"];
+    let plain = ["a", "abc", "x1", "+", "-", "...", "->x", "a.b", "list", "q", "hello-world", "<=?", "!$%&*/:<=>?^_~", "A", "lambda2", "λ", "naïve", "日本",
+        // number-like or peculiar first character followed by non-ASCII characters
+        "1λ", "-λ", "+é", "..λ", "1+😀", "-1é"];
     let mut v: Vec<(String, String)> = plain.iter().map(|s| (s.to_string(), s.to_string())).collect();
     // names that need the \x..; spelling
     v.push(("\\x41;".into(), "A".into()));
@@ -273,6 +275,13 @@ pub fn run(ctx: &Ctx) -> i32 {
                     pair_case(st, acc, r1, r2, &n1, &alt, mode, sched);
                 }
             }
+            // the look-alike: a different name whose characters are exactly the escaped spelling of this one
+            // (a\x20;b as a seven-character name next to the name "a b")
+            if other == 1 && n1.0.contains('\\') {
+                let alike = (n1.0.replace('\\', "\\x5c;"), n1.0.clone());
+                pair_case(st, acc, r1, r2, &n1, &alike, mode, sched);
+                pair_case(st, acc, r1, r2, &alike, &n1, mode, sched);
+            }
             let _ = needs_spelling;
         },
         Acc::merge,
@@ -310,7 +319,7 @@ pub fn run(ctx: &Ctx) -> i32 {
         acc_zero,
     );
     // reader-produced symbols: every token of <= 3 characters the reader classifies as a symbol
-    let alphabet: Vec<char> = "ax1+-./:!?*<=>_~^%&$@\\;".chars().collect();
+    let alphabet: Vec<char> = "ax1+-./:!?*<=>_~^%&$@\\;λ😀".chars().collect();
     let k = alphabet.len() as u64;
     let n_sym = 1 + k + k * k + k * k * k;
     let a4 = par_fold(
@@ -349,7 +358,7 @@ pub fn run(ctx: &Ctx) -> i32 {
     rep.transitions = Some(acc.evals);
     rep.traces_validated = Some(acc.nontrivial);
     rep.rule = format!(
-        "Every ordered pair of the {} production routes ({:?}) x {} reader-spellable names (plain, peculiar, non-ASCII, and \\x..; spellings of A, 12foo, 'a b', '(') x (same name | a different name | another spelling of the same name) x (same evaluation | two evaluations with the first result dropped | first result kept in a global) x collection schedule between the two productions (none | one forced collection | a collection before every instruction of the second evaluation): (eq? s1 s2) must be #t exactly when the names are equal, the heap audit (symbol table bijection, I1-I4) must pass after every collection. Inverses: (symbol->string (string->symbol s)) = s, re-interning is eq?, for every one-character string (all {} scalar values), all strings of <= 3 characters over 12 trouble characters and escape-looking texts ({} strings); (string->symbol (symbol->string y)) is y for every token of <= 3 characters over a 24-character alphabet that the reader classifies as a symbol. Non-trivial = a case whose verdict matched.",
+        "Every ordered pair of the {} production routes ({:?}) x {} reader-spellable names (plain, peculiar, non-ASCII, and \\x..; spellings of A, 12foo, 'a b', '(') x (same name | a different name | another spelling of the same name | the different name whose characters are this name's escaped spelling) x (same evaluation | two evaluations with the first result dropped | first result kept in a global) x collection schedule between the two productions (none | one forced collection | a collection before every instruction of the second evaluation): (eq? s1 s2) must be #t exactly when the names are equal, the heap audit (symbol table bijection, I1-I4) must pass after every collection. Inverses: (symbol->string (string->symbol s)) = s, re-interning is eq?, for every one-character string (all {} scalar values), all strings of <= 3 characters over 12 trouble characters and escape-looking texts ({} strings); (string->symbol (symbol->string y)) is y for every token of <= 3 characters over a 26-character alphabet (incl. a backslash, a 2-byte and a 4-byte character) that the reader classifies as a symbol. Non-trivial = a case whose verdict matched.",
         nr, ROUTES, nn, 0x110000 - 2048, nt
     );
     rep.assumptions.push("routes that embed the name in program text use a spelling the reader accepts; names the reader cannot spell are produced through string->symbol only".into());
